@@ -105,8 +105,12 @@ impl Runtime {
     pub fn launch(self: &Arc<Self>, proc: &Arc<Process>) {
         debug!("scheduler::launch");
         let proc = proc.clone();
+        #[cfg(feature = "verif")]
+        crate::verif::inflight_inc("launch");
         tokio::spawn(async move {
             proc.start();
+            #[cfg(feature = "verif")]
+            crate::verif::inflight_dec("launch");
         });
     }
 
@@ -315,10 +319,16 @@ impl Runtime {
 
         let action = Action::new(pid, tid, event, &vars);
         let scher = self.clone();
+        #[cfg(feature = "verif")]
+        crate::verif::inflight_inc("return");
         tokio::spawn(async move {
+            #[cfg(feature = "verif")]
+            crate::verif::chaos_yield("return").await;
             let _ = scher
                 .do_action(&action)
                 .map_err(|err| error!("scher::return_to_act {}", err.to_string()));
+            #[cfg(feature = "verif")]
+            crate::verif::inflight_dec("return");
         });
     }
 }
